@@ -1,4 +1,4 @@
-\* AS CODED, expected counterexample (LibQuorum): tree T4b, producer 3 Byzantine with free Confirms: one producer alone makes its block irreversible
+\* OPEN FINDING F4, expected counterexample (LibQuorum): tree T4b, producer 3 Byzantine with free Confirms: one producer alone makes its block irreversible
 SPECIFICATION Spec
 CONSTANTS
   N = 4
@@ -9,7 +9,7 @@ CONSTANTS
   MaxRestarts = 0
   ByzMode = "any"
   ByzRanges <- R123
-  Fixes <- NoFix
+  Fixes <- AllFixes
 VIEW view
 PROPERTIES LibQuorum
 CHECK_DEADLOCK FALSE
